@@ -570,11 +570,12 @@ class SecopClient(ProxyClient):
         if shutdown:
             self._shutdown.set()
             self._set_state(False, 'shutdown')
-            if self._connthread:
-                if self._connthread == current_thread():
+            connthread = self._connthread  # the thread may clear the attribute at any time
+            if connthread:
+                if connthread == current_thread():
                     return
                 # wait for connection thread stopped
-                self._connthread.join()
+                connthread.join()
                 self._connthread = None
         self.disconnect_time = time.time()
         try:  # make sure txq does not block
@@ -584,12 +585,14 @@ class SecopClient(ProxyClient):
             pass
         if self.io:
             self.io.shutdown()
-        if self._txthread:
+        txthread = self._txthread  # the threads clear these attributes themselves when ending
+        if txthread:
             self.txq.put(None)  # shutdown marker
-            self._txthread.join()
+            txthread.join()
             self._txthread = None
-        if self._rxthread:
-            self._rxthread.join()
+        rxthread = self._rxthread
+        if rxthread:
+            rxthread.join()
             self._rxthread = None
         if self.io:
             self.io.disconnect()
